@@ -150,6 +150,11 @@ impl<'a> PrettyPrinter<'a> {
                 .unwrap_or(children.len().saturating_sub(1));
             children[i..=j].iter()
         };
+        // A trailing line comment must be terminated before the closing paren.
+        let ends_with_line_comment = children
+            .clone()
+            .next_back()
+            .is_some_and(|child| child.kind() == SyntaxKind::LineComment);
 
         let mut peek_hashed_arg = false;
         let inner = self.convert_flow_like_iter(ctx, children, |ctx, child| {
@@ -181,7 +186,12 @@ impl<'a> PrettyPrinter<'a> {
                 }
             }
         });
-        if self.attr_store.is_multiline(args.to_untyped()) {
+        if ends_with_line_comment {
+            ((self.arena.line_() + inner).nest(self.config.tab_spaces as isize)
+                + self.arena.hardline())
+            .group()
+            .parens()
+        } else if self.attr_store.is_multiline(args.to_untyped()) {
             ((self.arena.line_() + inner).nest(self.config.tab_spaces as isize)
                 + self.arena.line_())
             .group()
